@@ -817,8 +817,19 @@ fn process_fieldfold(src: &str, d: &Dir) -> StructOut {
 
 /// text of an impl-item const inside an impl: `const X: T = e;`
 fn process_assoc_const(src: &str, d: &Dir) -> StructOut {
-    let c: syn::ImplItemConst = syn::parse_str(src).unwrap_or_else(|e| die("parse-failure", &format!("{}: {}", d.item, e)));
     let mut rules = BTreeMap::new();
+    // R0 on an associated const (e.g. a shift Verus cannot evaluate in a const item): same rule as for type definitions
+    let mut src_owned = src.to_string();
+    for (a, b) in &d.substs {
+        let n = src_owned.matches(a.as_str()).count();
+        if n != 1 {
+            die("anchor-lost", &format!("{}: subst text occurs {} times: {:?}", d.item, n, a));
+        }
+        src_owned = src_owned.replacen(a.as_str(), b, 1);
+        *rules.entry("R0".to_string()).or_insert(0) += 1;
+    }
+    let src: &str = &src_owned;
+    let c: syn::ImplItemConst = syn::parse_str(src).unwrap_or_else(|e| die("parse-failure", &format!("{}: {}", d.item, e)));
     let start = br(c.const_token.span()).start;
     if !c.attrs.is_empty() {
         rules.insert("R1".to_string(), c.attrs.len());
@@ -946,11 +957,12 @@ fn process_fn(src_with_attrs: &str, d: &Dir, loc: &Located) -> FnOut {
         }
         edits.push((open.start..open.start, ins));
         let mut entry = String::new();
-        if std::env::var("VP_CANARY").is_ok() {
-            entry.push_str("\n proof { assert(false); } // [CANARY]");
-        }
         if !d.entry.trim().is_empty() {
             entry.push_str(&format!("\n{}", d.entry));
+        }
+        if std::env::var("VP_CANARY").is_ok() {
+            // after the entry text: `hide(..)` headers must stay first in the body
+            entry.push_str("\n proof { assert(false); } // [CANARY]\n");
         }
         if !entry.is_empty() {
             edits.push((open.end..open.end, entry));
